@@ -62,6 +62,42 @@ func (s *Sim) phi(live []*SimNode) int64 {
 
 // entrySize is the size of a delta datagram from sender carrying exactly this
 // one entry of owner: below it the entry can never be sent.
+// countExtra is how many more bytes the per-node header needs to announce n
+// entries than to announce one. Measured from the real encoder (the width of
+// the integer depends on the codec's choices), not assumed.
+var countExtraTable = func() [][2]int {
+	size := func(n int) int {
+		es := make([]gossip.Entry, n)
+		b, err := gossip.VEncodeDelta("a", "b", []gossip.VDeltaEntry{{ID: "c", Addr: "d", Entries: es}}, 1<<30)
+		if err != nil {
+			panic("VERIF-HARNESS-ERROR encode: " + err.Error())
+		}
+		return len(b)
+	}
+	one := size(1)
+	per := size(2) - one
+	var t [][2]int
+	last := 0
+	for _, n := range []int{2, 15, 16, 31, 32, 127, 128, 255, 256, 32767, 32768, 65535, 65536, 70000} {
+		extra := size(n) - one - (n-1)*per
+		if extra != last {
+			t = append(t, [2]int{n, extra})
+			last = extra
+		}
+	}
+	return t
+}()
+
+func countExtra(n int) int {
+	extra := 0
+	for _, row := range countExtraTable {
+		if n >= row[0] {
+			extra = row[1]
+		}
+	}
+	return extra
+}
+
 func entrySize(sender, owner *SimNode, e gossip.Entry) int {
 	b, err := gossip.VEncodeDelta(sender.ID, sender.Addr, []gossip.VDeltaEntry{{ID: owner.ID, Addr: owner.Addr, Entries: []gossip.Entry{e}}}, 1<<24)
 	if err != nil {
@@ -87,7 +123,8 @@ func (s *Sim) feasibleSize(live []*SimNode) int {
 				continue
 			}
 			for _, e := range st.Entries {
-				if n := entrySize(sender, o, e); n > min {
+				// the node header announces how many entries are outstanding
+				if n := entrySize(sender, o, e) + countExtra(len(st.Entries)); n > min {
 					min = n
 				}
 			}
@@ -136,17 +173,20 @@ func (s *Sim) blockedByOversize(live []*SimNode, p, o *SimNode) bool {
 			continue
 		}
 		var next *gossip.Entry
+		outstanding := 0
 		for _, e := range sortedEntries(st) {
 			if e.Version > pv {
-				e := e
-				next = &e
-				break
+				if next == nil {
+					e := e
+					next = &e
+				}
+				outstanding++
 			}
 		}
 		if next == nil {
 			continue
 		}
-		if entrySize(sender, o, *next) > s.Cfg.MaxPacketSize {
+		if entrySize(sender, o, *next)+countExtra(outstanding) > s.Cfg.MaxPacketSize {
 			blocked = true
 		} else {
 			return false // somebody could send it
@@ -529,7 +569,19 @@ func replayC03(raw json.RawMessage) (string, bool) {
 	}
 	live := s.liveNodes()
 	if phi := s.phi(live); phi > 0 {
-		return fmt.Sprintf("[no-convergence] after replaying %d actions (incl. the closure's loss-free exchanges) the potential is still %d", len(w.Trail), phi), true
+		// same judgement as the live run: lagging pairs blocked by an individually
+		// oversize entry are known finding F1, anything else is a violation
+		var taint *TaintTracker
+		for _, m := range s.Monitors {
+			if t, ok := m.(*TaintTracker); ok {
+				taint = t
+			}
+		}
+		s.judgeStall(live, taint, 0, phi, phi, false)
+		if s.Failed() {
+			return fmt.Sprintf("[%s] after replaying %d actions (incl. the closure's loss-free exchanges): %s", s.Failures[0].Sig, len(w.Trail), s.Failures[0].What), true
+		}
+		return fmt.Sprintf("replayed %d actions; potential %d remains, every lagging pair is blocked by an entry that does not fit an empty datagram (known finding F1)", len(w.Trail), phi), false
 	}
 	for _, p := range live {
 		for _, o := range live {
